@@ -238,6 +238,22 @@ def cases(tier):
                 cs = [dict(ctl("clock", "<", cth, "CLOSED"), name="c0"), dict(ctl("clock", ">=", cth, "OPEN"), name="c1")]
                 s["controls"] = cs if order == 0 else cs[::-1]
                 out.append(s)
+    # two rules on pa that become true at the same rule step inside a hydraulic interval, with opposite actions and different
+    # priorities, in both registration orders, while a simple control on ANOTHER link is still pending later in that interval
+    for t1, off in ((H + 900, 35 * 60), (H + 1800, 1800), (2 * H + 900, 900)):
+        for pr in ((5, 1), (1, 5), (4, 3)):
+            for order in (0, 1):
+                for pend in (None, "time", "clock"):
+                    s = base(H, 900, 3 * H)
+                    hi = ctl("time", ">=", t1, "CLOSED", rule=True, prio=pr[0])
+                    lo = ctl("time", ">=", t1, "OPEN", rule=True, prio=pr[1])
+                    cs = [hi, lo] if order == 0 else [lo, hi]
+                    if pend == "time":
+                        cs.append(ctl("time", "=", t1 + off, "CLOSED", link="pb"))
+                    elif pend == "clock":
+                        cs.append(ctl("clock", "=", (t1 + off + 3 * H) % DAY, "CLOSED", link="pb"))
+                    s["controls"] = [dict(c, name="c%d" % i) for i, c in enumerate(cs)]
+                    out.append(s)
     # paused and continued runs: single rules / controls whose instant falls in the hydraulic interval right after the pause
     for pause in (H, 2 * H, 3 * H):
         cs = [ctl("time", "=", pause + 18 * 60, "CLOSED"), ctl("clock", "=", (pause + 18 * 60 + 3 * H) % DAY, "CLOSED")]
